@@ -16,17 +16,18 @@ from sim import world as Wd
 from sim.vkernel import K, MUTATING
 
 ID = 'C11'
+TIER = 'quick'
 LEVEL = 'exploration'
 ENGINE = 'history'
 BUDGET = {'quick': 8000, 'thorough': 100000}
-WALL = {'quick': 45, 'thorough': 1500}
+WALL = {'quick': 90, 'thorough': 1500}
 RULE = ('one trash-empty (all modes) or trash-rm per case over trash content with symlink payloads (absolute, relative, dangling, '
         'chains, to files and to directories outside), directory payloads containing such links at depth <= 4, odd info names, trash '
         'dirs reached through symlinked HOME / XDG_DATA_HOME or named by --trash-dir <symlink>/../<dir> next to a decoy at the textually collapsed path; non-trivial = at least one purged payload is or contains a symlink '
         'to something outside; distinct = (command, link kinds purged, depth)')
 ASSUMPTIONS = ['the checks run as root: the permission failures an ordinary user meets (unlink inside a read-only directory: EACCES) are emulated by injected persistent conditions',
                "a trash directory whose files/ or info/ is itself a symlink (foreign damage) is not generated: what 'under files/' means there is debatable"]
-PROBES = ['trash-dir-spelled-through-symlink-dotdot', 'permission-conditions', 'link-payload-purged', 'link-inside-dir-purged', 'dangling-purged', 'through-symlinked-home', 'rm-command', 'empty-command',
+PROBES = ['tree-deeper-than-the-recursion-limit', 'trash-dir-spelled-through-symlink-dotdot', 'permission-conditions', 'link-payload-purged', 'link-inside-dir-purged', 'dangling-purged', 'through-symlinked-home', 'rm-command', 'empty-command',
           'mutating-ops-monitored', 'rmtree-used']
 TECHNIQUE = 'deterministic simulation with an in-kernel containment monitor on every mutating op plus full-snapshot frame check'
 LEVEL_TEXT = ('seeded exploration of trash contents; containment is evaluated at the op that would break it (resolved target of each '
@@ -119,8 +120,24 @@ def gen(rng):
             steps.append(['l', tdir + '/files/eiolink', home + '/precious'])
             steps.append(['f', tdir + '/info/eiolink.trashinfo', G.fmt_info(TG.pct(home + '/w/eiolink'), '2021-01-02T00:00:00'), 0o600])
             faults.append({'kind': 'cond', 'what': 'immutable', 'entry': '%RESOLVE%' + tdir + '/files/eiolink'})
+    abyss = rng.random() < (0.0005 if TIER == 'quick' else 0.002)      # expensive: every op resolves a path of 1100 components
+    if abyss:
+        # an abyss: a trashed tree nested deeper than the interpreter's recursion limit, with links to the outside at its top
+        # and at its bottom.  shutil.rmtree gives up with RecursionError there; whatever the command does about it, the link
+        # targets stay untouched
+        tdir = locs[0][0]
+        deep = tdir + '/files/abyss'
+        steps.append(['l', deep + '/docs', home + '/precious'])
+        steps.append(['f', deep + '/zz-last', 'z', 0o644])
+        chain = deep + '/d' * 1100
+        steps.append(['d', chain, 0o755])
+        steps.append(['l', chain + '/docs', home + '/precious'])
+        steps.append(['f', tdir + '/info/abyss.trashinfo', G.fmt_info(TG.pct(home + '/w/abyss'), '2001-01-01T00:00:00'), 0o600])
+        names.append('abyss')
     voltd = [t for t in locs if t[1] is not None]
-    if voltd and rng.random() < 0.12:
+    if abyss:
+        argv = ['trash-empty'] + rng.choice([[], ['-v'], ['0']])
+    elif voltd and rng.random() < 0.12:
         # --trash-dir spelled through '<symlink>/..': the kernel resolves it to the volume's trash directory; a textual
         # normalisation would name ANOTHER directory, which exists and has files/ and info/ of its own
         tdir, top, _u = rng.choice(voltd)
@@ -238,6 +255,10 @@ def check(sim, case, st):
                 kinds.add(('top:' if top else 'inner:') + snap0[tgt][0])
                 if not top:
                     depth = max(depth, p.count('/'))
+    if any(k.endswith('/files/abyss') for k in snap0):
+        st.probes['tree-deeper-than-the-recursion-limit'] += 1
+        if r.exc is not None and 'Recursion' in r.exc:
+            st.probes['rmtree-gave-up-with-RecursionError'] += 1
     if any('/stick/../' in a for a in argv):
         st.probes['trash-dir-spelled-through-symlink-dotdot'] += 1
     if env.get('HOME', '').endswith('ulink') or 'xdglink' in env.get('XDG_DATA_HOME', ''):
